@@ -1,5 +1,6 @@
 import T4V.Spec.T4
 import T4V.Spec.MCNP
+import Std.Data.HashMap
 /-!
 # Point monitor: MCNP reference semantics vs the TRIPOLI-4 file that was actually written
 (the executable form of the statement `convert_refines`: owners of a point on both sides agree
@@ -72,6 +73,57 @@ def minAbsT4 (f : T4File Float) (p : V3 Float) : Float :=
     | some v => if v.abs < acc then v.abs else acc
     | none => acc) 1e300
 
+/-! ## The same owners, with the senses of all surfaces at the point tabulated once
+(`T4V.MonitorFast.ownersFast_eq`, `undecidedFast_eq`: equal to `T4File.owners` / `T4File.undecided` for every file and
+point; first occurrence of a surface number wins in both). -/
+
+def senseTable (f : T4File Float) (p : V3 Float) : Std.HashMap Nat (Option Bool) :=
+  f.surfs.foldl (fun m ns => m.insertIfNew ns.1 ((ns.2.f p).map fun v => decide ((0:Float) < v))) ∅
+
+/-- lookup in a table of senses (a function of the table, so that the table is built once per point) -/
+def senseOf (t : Std.HashMap Nat (Option Bool)) : SenseFn := fun n =>
+  match t[n]? with
+  | none => none
+  | some b => b
+
+/-- volumes by number (first occurrence wins, as in `findVol`) -/
+def volTable (vols : List TVol) : Std.HashMap Nat TVol :=
+  vols.foldl (fun m v => m.insertIfNew v.id v) ∅
+
+/-- `member` with the volume looked up in the table -/
+def memberFast (t : Std.HashMap Nat TVol) (σ : SenseFn) : Nat → Nat → Option Bool
+  | 0, _ => none
+  | fuel + 1, k => do
+    let v ← t[k]?
+    let e ← equaT σ v
+    match v.op with
+    | none => pure e
+    | some (.union, ids) =>
+        let bs ← ids.mapM (memberFast t σ fuel)
+        pure (e || bs.any id)
+    | some (.inte, ids) =>
+        let bs ← ids.mapM (memberFast t σ fuel)
+        pure (e && bs.all id)
+
+def T4File.ownersFast (f : T4File Float) (p : V3 Float) : List TVol :=
+  let t := senseTable f p
+  let vt := volTable f.vols
+  f.vols.filter fun v => !v.fictive && memberFast vt (senseOf t) (f.vols.length + 1) v.id == some true
+
+def T4File.undecidedFast (f : T4File Float) (p : V3 Float) : List Nat :=
+  let t := senseTable f p
+  let vt := volTable f.vols
+  (f.vols.filter fun v => !v.fictive && (memberFast vt (senseOf t) (f.vols.length + 1) v.id).isNone).map (·.id)
+
+/-- one pass for both: the verdict of every non-virtual volume at the point -/
+def T4File.verdicts (f : T4File Float) (p : V3 Float) : List (TVol × Option Bool) :=
+  let t := senseTable f p
+  let vt := volTable f.vols
+  (f.vols.filter fun v => !v.fictive).map fun v => (v, memberFast vt (senseOf t) (f.vols.length + 1) v.id)
+
+def ownersOf (vs : List (TVol × Option Bool)) : List TVol := (vs.filter fun x => x.2 == some true).map (·.1)
+def undecidedOf (vs : List (TVol × Option Bool)) : List Nat := (vs.filter fun x => x.2.isNone).map (·.1.id)
+
 def monitorPoint (d : Deck Float) (f : T4File Float) (withComp : Bool) (eps : Float) (p : V3 Float) : PointResult :=
   let toNat : Float → Nat := fun x => x.toUInt64.toNat
   match locate toNat d p with
@@ -83,8 +135,9 @@ def monitorPoint (d : Deck Float) (f : T4File Float) (withComp : Bool) (eps : Fl
     let spec := (leaves.filter (·.impNonzero)).map fun l =>
       let ds := l.descr
       if withComp then ds else { ds with mat := 0, dens := none }
-    let und := f.undecided p
-    let owners := f.owners p
+    let vs := f.verdicts p
+    let und := undecidedOf vs
+    let owners := ownersOf vs
     match owners.mapM (volDescr f orig · withComp) with
     | none => .mismatch (" ".intercalate (spec.map Descr.toString)) "owner without unique composition"
     | some got =>
